@@ -164,6 +164,13 @@ static void child_set(int pid, int state)
 {
   pthread_mutex_lock(&child_mu);
   if (state == 1) {
+    if (W->nchild >= W_MAXCHILD) {
+      // table full: drop the entries of children that were reaped long ago
+      int n = 0;
+      for (int i = 0; i < W->nchild; i++)
+        if (W->child[i].state == 1) W->child[n++] = W->child[i];
+      W->nchild = n;
+    }
     if (W->nchild < W_MAXCHILD) {
       W->child[W->nchild].pid = pid;
       W->child[W->nchild].state = 1;
